@@ -27,6 +27,7 @@
 
 from __future__ import absolute_import
 
+import re
 import uuid
 import time
 import pickle
@@ -119,7 +120,9 @@ class RedisStorage(QueueStorage):
         log.update_meta(id, delivered_indexes=rcpt_indexes)
 
     def load(self):
-        for key in self.redis.keys(self.prefix+'*'):
+        # KEYS takes a glob-style pattern, the prefix is meant literally.
+        pattern = re.sub(r'([*?\[\]\\])', r'\\\1', self.prefix) + '*'
+        for key in self.redis.keys(pattern):
             if isinstance(key, bytes):
                 key = key.decode('utf-8')
             if key != self.queue_key:
